@@ -7,6 +7,7 @@
 #
 # @author Davide Brunato <brunato@sissa.it>
 #
+import os
 from typing import Any, Optional, Union
 from urllib.request import urlopen
 
@@ -89,6 +90,10 @@ def fetch_schema_locations(source: Union['XMLResource', XMLSourceType],
         raise XMLSchemaValueError("provided arguments don't contain any schema location hint")
 
     namespace = resource.namespace
+    if base_url is None and allow == 'sandbox' and resource.url is not None:
+        # Location hints are confined to the sandbox of the XML source that carries them
+        base_url = resource.base_url or os.path.dirname(resource.url)
+
     for ns, location in sorted(locations, key=lambda x: x[0] != namespace):
         try:
             resource = XMLResource(location, base_url, allow, defuse, timeout,
